@@ -394,7 +394,8 @@ def run_impl(case):
         elif op[0] == "iter_next":
             it = iters[op[1]]
             try:
-                d = next(it)
+                # `for e in it` / list(it) go through iter(it): an iterator is its own iterator (same position, same snapshot)
+                d = next(iter(it) if len(outs) % 2 else it)
                 r = [0, int(d["index"]), dec_row(layout, {n: d[n] for n, _, _ in layout})]
             except StopIteration:
                 r = [6]
